@@ -97,7 +97,7 @@ func Stores() []Store {
 // Requests (principal, action, resource, context).
 func Requests() [][4]Val {
 	return [][4]Val{
-		{Entity("U", "alice"), Entity("Action", "view"), Entity("G", "g1"), Rec(KV{"a", Long(1)}, KV{"s", Set(Long(1))}, KV{"r", Rec(KV{"b", Long(1)})})},
+		{Entity("U", "alice"), Entity("Action", "view"), Entity("G", "g1"), Rec(KV{"a", Long(1)}, KV{"s", Set(Long(1))}, KV{"r", Rec(KV{"b", Long(1)})}, KV{"big", Long(MaxI)}, KV{"small", Long(MinI)})},
 		{Entity("U", "ghost"), Entity("Action", "edit"), Entity("U", "bob"), Rec()},
 	}
 }
